@@ -43,9 +43,9 @@ func c10SecretLen(r *c10Rand, blk int) int {
 func TestVerifC10Prf(t *testing.T) {
 	r := &c10Rand{s: c10Seed() ^ 0xc10}
 	out := newC10Out(t)
-	n := 40
+	n := 30
 	if c10Thorough() {
-		n = 1500
+		n = 600
 	}
 	must := func(b []byte, err error) []byte {
 		if err != nil {
